@@ -303,6 +303,23 @@ def audit(res, facts, entries):
             res.inst("C19.R2", "%s: no public field" % kt.split("::")[-1])
         else:
             res.violate("C19.R2", C + kt, "public field " + ",".join(pub), "a key / nonce type with a public field can be built for any (version, purpose) without the typed constructors", file=facts.rel(adt["file"]), line=adt["line"])
+    # (a') the state of the builder / parser types is set through typed methods only: a public field lets a program put a value where its
+    # setter is not offered for that (version, purpose) - e.g. an implicit assertion on a v1 / v2 core builder, whose setter exists only
+    # under ImplicitAssertionCapable - and that program type-checks
+    for path in ("crate::core::paseto::Paseto", "crate::generic::builders::generic_builder::GenericBuilder", "crate::generic::parsers::generic_parser::GenericParser",
+                 "crate::prelude::paseto_builder::PasetoBuilder", "crate::prelude::paseto_parser::PasetoParser"):
+        adt = facts.adts.get(path)
+        if adt is None:
+            res.oblige(False)
+            res.violate("C19.R2", path, "type missing", "struct not found")
+            continue
+        pub = [f["name"] for f in adt["variants"][0]["fields"] if f["vis"] == "pub"]
+        res.oblige(not pub)
+        if not pub:
+            res.inst("C19.R2", "%s: no public field (state only through the typed setters)" % path.split("::")[-1])
+        else:
+            res.violate("C19.R2", path, "public field " + ",".join(pub), "a public field of a builder / parser type can be assigned for any (version, purpose): the bound on its setter (e.g. ImplicitAssertionCapable) no longer rejects the mixing program",
+                        file=facts.rel(adt["file"]), line=adt["line"])
     # (b) impls on the key types = frozen table
     seen = set()
     for i in facts.impls:
